@@ -101,6 +101,14 @@ def size_assignments(ob, nvariants, seed):
 
 
 # ------------------------------------------------------------------ running one obligation
+class TimeBudget(BaseException):
+    """wall-clock budget of one symbolic obligation exhausted (BaseException: not swallowed by `except Exception`)"""
+
+
+def _budget_handler(signum, frame):
+    raise TimeBudget()
+
+
 def run_symbolic(ob, canary=False):
     from . import extract as X
     from .world import SymWorld
@@ -113,15 +121,34 @@ def run_symbolic(ob, canary=False):
     w.canary = canary
     t0 = time.time()
     status, err = "ok", ""
+    # wall-clock budget per obligation: code that no longer satisfies a contract can make the normal forms explode; the
+    # obligation is then left to the numeric world (a failing input is a violation, none is a checker failure, exit 3)
+    budget = float(os.environ.get("GTV_OB_BUDGET", "900"))
+    import signal
+    old_handler = None
+    try:
+        old_handler = signal.signal(signal.SIGALRM, _budget_handler)
+        signal.setitimer(signal.ITIMER_REAL, budget, 5.0)
+    except (ValueError, AttributeError):
+        old_handler = None
     try:
         with X.symbolic(w):
             ob.fn(w)
+    except TimeBudget:
+        status, err = "unsupported", f"KernelError: wall-clock budget of {budget:.0f} s per obligation exhausted"
     except S.ShapeError as ex:
         status, err = "shape-error", f"{type(ex).__name__}: {ex}\n" + _tb_repo(ex)
     except (S.ShimUnsupported, K.KernelError, S.Undecided) as ex:
         status, err = "unsupported", f"{type(ex).__name__}: {ex}\n" + _tb_repo(ex)
     except Exception as ex:  # exception raised by / inside the real code
         status, err = "exception", f"{type(ex).__name__}: {ex}\n" + _tb_repo(ex)
+    finally:
+        try:
+            signal.setitimer(signal.ITIMER_REAL, 0)
+            if old_handler is not None:
+                signal.signal(signal.SIGALRM, old_handler)
+        except (ValueError, AttributeError):
+            pass
     wall = time.time() - t0
     return dict(status=status, error=err, wall=wall,
                 clauses=[r.to_json() for r in w.results],
